@@ -36,6 +36,14 @@ CHECKS = {
             "TLC checks over every token stream up to the bound that nothing outside the grammar is accepted; every emitted stream (valid or not) and every single fault (each token-boundary truncation, byte truncations, end-tag deletion/renaming/duplication/transposition, stray text, stray end tag, second root) of random and library-serialised bodies goes through the real TreeBuilder, and the expected verdict is the specification parser's verdict on the mutated text.",
             "Trusted: TLC, OFXSyntax.tla. Unjudged: text before the first tag, tag names outside the OFX alphabet.",
             "DESIGN.md section 6 C08"),
+    "C13": ("TLA+ OFXAggregate over the exported live schema: TLC first-order schema invariants per class + TLC-computed minimal documents + per-child construct/write/read probe trace-validated",
+            "TLC evaluates, for each of the 390 classes, first-order invariants over the exported declarations (child named after its class, class found by tag, exclusivity groups well-formed and in force wherever inherited, list children adjacent, minimal document accepted); for every declared child a document holding it is built, written and read back by the library and TLC's document machine judges both constructions and the equality of the two models.",
+            "Trusted: TLC, the declaration exporter (walks the MRO itself, never calls cls.spec/_superdict), the extra-rule table transcribed from OFX prose. Exhaustive over the finite schema. Two known findings (tax1099 classes).",
+            "DESIGN.md section 6 C13"),
+    "C04": ("TLA+ OFXAggregate document machine: every (class, constraint, violating/boundary variant) of the TLC-computed minimal document through both construction routes, trace-validated",
+            "For every class and every constraint it declares or inherits (required child, optional/required groups declared anywhere in the MRO, enumerations, string length, integer digits, order, duplicates, slot kinds, list member types, unknown keywords) the violating and the boundary variant of the minimal document is built through from_etree and through keyword construction; TLC runs the document machine on the same tokens and judges accept/reject, cross-checks the generator's intention, and re-validates every returned instance after writing it.",
+            "Trusted: TLC, the exporter, OFXTypes for value limits. Depth-1 focus (each class is the root once) with minimal valid sub-aggregates. Classes whose custom validation is not in the extra-rule table are not judged on rejection.",
+            "DESIGN.md section 6 C04"),
 }
 
 PENDING = {}
